@@ -167,6 +167,13 @@ def handle (line : String) : String :=
     | _ => "badcase"
   | "rump" :: rest =>
     match parseCfg rest with
+    | some (cfg, [tdb, es, sc]) =>
+      -- a special-cloud source: same filters; a Tencent cluster has the single logical database 0 (its other numbers do not exist)
+      match (field? "tdb=" tdb) >>= String.toInt?, (field? "E=" es) >>= parseEnts with
+      | some tdb, some es =>
+        let es := if sc == "sc=tencent" then es.filter (fun e => match e with | .key d _ _ => d == 0 | .lua d => d == 0) else es
+        s!"rump={joinOrDash (specKeys .rump cfg tdb es)}"
+      | _, _ => "badcase"
     | some (cfg, [tdb, es]) =>
       match (field? "tdb=" tdb) >>= String.toInt?, (field? "E=" es) >>= parseEnts with
       | some tdb, some es => s!"rump={joinOrDash (specKeys .rump cfg tdb es)}"
